@@ -23,6 +23,7 @@ func runThreads(tr *Tracer, s *Scenario) bool {
 	}
 	sort.Strings(ids)
 	samePrefix := s.Cfg.num("same_prefix", 1) == 1
+	base.inmem = s.Cfg.num("inmem", 0) == 1
 	var wg sync.WaitGroup
 	okAll := true
 	var mu sync.Mutex
